@@ -370,7 +370,7 @@ func verifySignature(tokenString string, publicKeyPEM []byte, alg string) error 
 		if strings.HasPrefix(alg, "ES") {
 			var r, s big.Int
 			sigLen := len(signature)
-			if sigLen%2 != 0 {
+			if sigLen != 2*((pubKey.Curve.Params().BitSize+7)/8) {
 				return fmt.Errorf("invalid ECDSA signature length")
 			}
 			r.SetBytes(signature[:sigLen/2])
